@@ -524,3 +524,11 @@ func ShardOwns(i int) bool {
 	sh, n := Shard()
 	return i%n == sh
 }
+
+// ScratchCtx returns a context that belongs to no unit and writes no report: for helper processes that use
+// harness code which wants a Ctx. A failure reported through it panics with the message.
+func ScratchCtx() *Ctx {
+	r := &runner{u: Unit{Name: "scratch"}, nt: map[uint64]struct{}{}, known: map[string]bool{}, start: time.Now()}
+	r.rep = Report{Classes: map[string]int{}, KnownHits: map[string]int{}, KnownSample: map[string]string{}, Excluded: map[string]int{}}
+	return &Ctx{r: r, caseFn: func() json.RawMessage { return json.RawMessage("null") }}
+}
